@@ -6,7 +6,7 @@ Confirms a seeded change in the scratch worktree /tmp/mut and files it under /ve
 import json, os, re, shutil, subprocess, sys, time
 pid, n, src, pkg, rx = sys.argv[1:6]
 tags = sys.argv[6] if len(sys.argv) > 6 else ""
-MUT = "/tmp/mut"
+MUT = os.environ.get("SEED_WT", "/tmp/mut")
 env = dict(os.environ, GOFLAGS="-mod=mod", GOPROXY="off", GOSUMDB="off", GOTOOLCHAIN="local")
 def sh(cmd, **kw):
     p = subprocess.run(cmd, shell=True, cwd=MUT, env=env, stdout=subprocess.PIPE, stderr=subprocess.STDOUT, text=True, **kw)
